@@ -430,6 +430,60 @@ def r07_8_annotation_inverse(ctx):
     ctx.require_min("R07.8", 20)
 
 
+def r07_9_named_fields(ctx):
+    from sa.minieval import run_function as _rf
+
+    ctx.rule("R07.9", "a named field of a NamedTuple is the member declared at that position: after NamedTuple.__init__ has read the class's field annotations, attribute access t.<field> indexes the tuple at the field's position in declaration order (the order of the encoded layout) - for names declared in non-alphabetical order and for more than ten numbered names")
+    c = ctx.model.find_class("NamedTuple", "pyteal.ast.abi.tuple")
+    init, ga = c.methods["__init__"], c.methods["__getattr__"]
+    ctx.analysed(init.fq, ga.fq)
+    FieldOrigin = Sym("Field-origin")
+    families = {"declared owner, balance, frozen, nonce": ["owner", "balance", "frozen", "nonce"], "f0..f11": [f"f{i}" for i in range(12)], "reverse alphabetical": ["zeta", "mid", "alpha"], "one field": ["only"], "upper and lower case": ["b", "A", "a", "B"]}
+    for label, names in families.items():
+        anns = {nm: Rec("item", FieldOrigin, Rec("name", f"T{i}")) for i, nm in enumerate(names)}
+        selfs = Sym("self:NT")
+        selfs.methods["__getitem__"] = lambda i: ("member", i)
+
+        def oracle(e, me):
+            t = u(e)
+            if isinstance(e, ast.Call):
+                fn = u(e.func)
+                if fn == "get_annotations":
+                    return dict(anns)
+                if fn == "get_origin":
+                    a = me.ev(e.args[0])
+                    return FieldOrigin if (isinstance(a, Rec) and a.kind == "item") or (isinstance(a, Rec) and a.kind == "name" and a.args and a.args[0] == "Field") or a is FieldOrigin else None
+                if fn == "get_args":
+                    a = me.ev(e.args[0])
+                    return (a.parts[1],) if isinstance(a, Rec) and a.kind == "item" else ()
+                if fn == "type_spec_from_annotation":
+                    return Sym("spec-of:" + strip(me.ev(e.args[0])))
+                if fn == "NamedTupleTypeSpec":
+                    return Sym("ntspec")
+                if fn == "super().__init__":
+                    return None
+                if fn == "type":
+                    return Sym("class:UserTuple")
+            if t == "Field":
+                return FieldOrigin
+            if t in ("NamedTuple", "OrderedDict"):
+                return Sym("class:NamedTuple") if t == "NamedTuple" else dict
+            raise Unknown()
+
+        try:
+            _rf(init.node, {"self": selfs}, oracle, init.fq, permissive=True)
+        except Raised as r:
+            ctx.bad("R07.9", f"NamedTuple[{label}]", f"the constructor raises {r.exc_text[:60]}", init.where)
+            continue
+        for i, nm in enumerate(names):
+            try:
+                got, _ = _rf(ga.node, {"self": selfs, "field": nm}, oracle, ga.fq, permissive=True)
+            except Raised as r:
+                got = f"raises {r.exc_text[:40]}"
+            ctx.check(got == ("member", i), "R07.9", f"NamedTuple[{label}].{nm}", f"t.{nm} yields {got!r}; `{nm}` is declared at position {i}", ga.where, fact={"position": i})
+    ctx.require_min("R07.9", 20)
+
+
 def r19_6_index_tuple_output_type(ctx):
     ctx.rule("R19.6", "a tuple member is only ever decoded into a value of the member's own type: _index_tuple refuses an output whose type spec differs from the member's - whatever the two kinds are (a Bool output for an integer, string or tuple member included, where the bit-addressed fast path would otherwise read one bit of the member)")
     W = AbiWorld(ctx)
@@ -460,6 +514,7 @@ def r19_6_index_tuple_output_type(ctx):
 
 
 def run(ctx):
+    r07_9_named_fields(ctx)
     r07_1_index_tuple(ctx)
     r07_2_decoders(ctx)
     r07_3_array_element(ctx)
